@@ -364,14 +364,20 @@ pub fn install_panic_hook() {
 /// Shorten a source path to its part after the repository root so signatures
 /// do not depend on where walrus is checked out.
 fn norm_loc(loc: &str) -> String {
-    if let Some(i) = loc.find("/src/") {
-        // keep "src/..." (walrus) or "<crate>/src/..." for registry crates
+    if let Some(i) = loc.rfind("/src/") {
         let head = &loc[..i];
         let krate = head.rsplit('/').next().unwrap_or("");
-        if head == "/repo" || krate == "repo" || loc.starts_with("src/") {
-            loc[i + 1..].to_string()
-        } else {
+        // registry crates live in "<name>-<version>/src/..."
+        let versioned = krate
+            .rsplit_once('-')
+            .map(|(_, v)| v.chars().next().map(|c| c.is_ascii_digit()).unwrap_or(false))
+            .unwrap_or(false);
+        if versioned {
             format!("{}{}", krate, &loc[i..])
+        } else if krate == "macro" {
+            format!("crates/macro{}", &loc[i..])
+        } else {
+            loc[i + 1..].to_string()
         }
     } else {
         loc.to_string()
